@@ -12,6 +12,7 @@ import Revm.Proofs.EvmLinkStatic6
 import Revm.Proofs.EvmLinkTerm
 import Revm.Proofs.EvmLinkTotal4
 import Revm.Proofs.EvmLinkInit
+import Revm.Proofs.EvmLinkInterp14
 /-! C01Link — the whole-transaction model `Revm.Model.Evm.transact` (C01) SATISFIES the component properties.
 
 `Evm.transact` (EvmTx / EvmFrame / EvmLoop / EvmHost) was written independently of the component models that carry the
@@ -1001,5 +1002,93 @@ example : WOk sampleWorld := wok_fresh sampleWorld 17 (fun _ => false) rfl (by
   subst hp
   show (10 : Nat)^18 < W
   rw [W_val]; decide)
+
+/-! ### C25's per-frame invariant through `run_the_loop`: the interpreter-side panics are excluded
+
+`Proofs/EvmLinkInterp*.lean`: the loop invariant `LI` is extended by `SI` — every frame on the stack satisfies C25's
+`Inv`; a frame's memory is a context opened on top of the memory its parent had when it handed out the action, and the
+return window of a waiting CALL lies in the parent's memory; the checkpoint of the frame at height `k` is at most
+`k · 2^43` (the memory cost of a frame is not saturated — the measures of all frames add up to at most `u64::MAX - 1`,
+since an action hands the child gas the parent paid for — so its context is at most 2^43 bytes, and there are at most
+1025 frames: the shared buffer stays below 2^62); every code in the store and every recorded precompile output is a
+Rust `Bytes` (at most `isize::MAX` bytes). With it no `Interp.step` faults (C25 `execInstr_good`), `insert_*_outcome`
+never faults (C25 `insertCall_sat` / `insertCreate_sat`, on the memory `free_context` gives back: C11's
+`insertCallOutcome_mem`), `free_context` never fails. -/
+
+/-- the residual class that remains inside the loop: the fuel. Legacy code never hands out the EOFCREATE action
+(EOFCREATE stops at its `require_eof!`: `oa_eofcreateI`), so the EOFCREATE panic of the legacy-only model is gone too. -/
+theorem resid3_iff (e : Err) : Resid3 e ↔ e = .outOfFuel := Iff.rfl
+
+/-- **`transact_total` on typed inputs** (= `FullStatement_transact_total_link` restricted to Rust values): on a
+well-formed world between two transactions whose code store and precompile oracle hold Rust `Bytes` (`WTyped`), for
+an environment whose calldata is a `Bytes` and whose gas limit is a `u64` below `u64::MAX` (`ETyped`), for every fork,
+with `2 · gas_limit + 2` units of fuel or more, `Evm.transact` returns a result on a well-formed world, or fails softly
+(`Soft`: code-store miss, precompile panic, oracle miss, fatal database error — none of them a panic of the journal,
+the frame machine or the interpreter). NEVER `interpreter: …`, `insert outcome: …`, `free_context`, the EOFCREATE
+action, nor "out of fuel": the whole residual class `Resid` of `transact_total_partial` is excluded. -/
+theorem transact_total_partial' (fuel : Nat) (w : World) (e : Evm.Env)
+    (spec : Nat) (h : WOk w) (hw : WTyped w) (he : ETyped e) (hf : 2 * e.tx.gasLimit + 2 ≤ fuel) :
+    (∃ o w', Evm.transact fuel w e spec = .ok (o, w') ∧ WOk w') ∨
+    (∃ err, Evm.transact fuel w e spec = .error err ∧ Soft err) := by
+  have h1 := transact_tot3 pcOut outB inB fuel w e spec h hw he
+  have h2 := transact_terminates' fuel w e spec hf
+  cases hx : Evm.transact fuel w e spec with
+  | ok p => rw [hx] at h1; exact Or.inl ⟨p.1, p.2, rfl, h1⟩
+  | error err =>
+    rw [hx] at h1
+    refine Or.inr ⟨err, rfl, ?_⟩
+    rcases h1 with h1 | h1
+    · exact h1
+    · exact absurd (by rw [hx, h1]) h2
+
+/-- the hypotheses `WTyped` / `ETyped` say that the inputs are Rust values; what `FullStatement_transact_total_link`
+(no such hypothesis) would need on top: nothing for a `World` / `Env` that comes from the Rust types (`Bytes` is at
+most `isize::MAX` long, `gas_limit : u64`), except the single value `gas_limit = u64::MAX`, which the invariant
+"measure ≤ u64::MAX - 1" of the loop excludes (C25's `Inv` allows it only with an empty stack). -/
+theorem transact_total_typed (fuel : Nat) (w : World) (e : Evm.Env) (spec : Nat) (h : WOk w) (hw : WTyped w)
+    (he : ETyped e) (hf : 2 * e.tx.gasLimit + 2 ≤ fuel) :
+    (∃ r, Evm.transact fuel w e spec = .ok r) ∨ (∃ err, Evm.transact fuel w e spec = .error err ∧ Soft err) := by
+  rcases transact_total_partial' fuel w e spec h hw he hf with ⟨o, w', hx, _⟩ | hx
+  · exact Or.inl ⟨_, hx⟩
+  · exact Or.inr hx
+
+/-- the fresh world of a pre-state whose codes and recorded precompile outputs are Rust `Bytes` is typed -/
+theorem wtyped_fresh (spec : Nat) (pre : List PreAcct) (dbHasStorage : Bool) (oracle : List PcAnswer)
+    (hcode : ∀ p ∈ pre, p.code.length ≤ Memory.ISIZE_MAX) (hpc : ∀ a ∈ oracle, a.out.length ≤ Memory.ISIZE_MAX) :
+    WTyped (Spec.Evm.freshWorld spec pre dbHasStorage oracle) := by
+  refine ⟨⟨fun q hq => ?_, hpc⟩, rfl⟩
+  obtain ⟨p, hp, hq⟩ := List.mem_filterMap.mp hq
+  split at hq
+  · cases hq
+  · cases hq; exact hcode p hp
+
+/-- COROLLARY, in the shape of C01 `FullStatement_transact_total`: on the fresh world of a pre-state made of Rust values
+(256-bit balances, codes and recorded precompile outputs `Bytes`), for a transaction made of Rust values (calldata a
+`Bytes`, `gas_limit < u64::MAX`), with the fuel bound stated there, the answer is a result or a SOFT error (code-store
+miss, precompile panic, oracle miss, fatal database error) — never a panic of the journal, the frame machine or the
+interpreter, never "out of fuel". What still separates this from `FullStatement_transact_total`: the precompile panic
+(C23: MODEXP on a huge length does panic) and `code_by_hash` on an inconsistent code store, which are true of the code. -/
+theorem transact_total_fresh' (spec : Nat) (pre : List PreAcct) (dbHasStorage : Bool)
+    (oracle : List PcAnswer) (e : Evm.Env) (hbal : ∀ p ∈ pre, p.balance < W)
+    (hcode : ∀ p ∈ pre, p.code.length ≤ Memory.ISIZE_MAX) (hpc : ∀ a ∈ oracle, a.out.length ≤ Memory.ISIZE_MAX)
+    (he : ETyped e) :
+    match Evm.transact (2 * e.tx.gasLimit + 2) (Spec.Evm.freshWorld spec pre dbHasStorage oracle) e spec with
+    | .ok _ => True
+    | .error err => Soft err := by
+  have hw : WOk (Spec.Evm.freshWorld spec pre dbHasStorage oracle) :=
+    wok_fresh _ (GasCalc.canon spec) (fun _ => false) rfl hbal
+  rcases transact_total_partial' (2 * e.tx.gasLimit + 2) _ e spec hw
+    (wtyped_fresh spec pre dbHasStorage oracle hcode hpc) he (Nat.le_refl _) with ⟨o, w', h, _⟩ | ⟨err, h, h1⟩
+  · rw [h]; trivial
+  · rw [h]; exact h1
+
+/-- non-vacuity: the sample world and environment are typed -/
+example : WTyped sampleWorld where
+  store := by
+    constructor
+    · intro p hp; cases hp
+    · intro p hp; cases hp
+  depth := rfl
+example : ETyped sampleEnv := ⟨Nat.zero_le _, by show 21000 ≤ U64 - 2; rw [U64_val]; decide⟩
 
 end Revm.Props.C01Link
